@@ -155,15 +155,37 @@ type lop struct {
 	// jump mode: park the scheduler at "arm" right after the wake-up of this
 	// step and issue this operation meanwhile (entries | stop | rm-last | add)
 	Place string
+	// hold the scheduler goroutine in the logger on this message, which this
+	// operation provokes ("stop": for the next Hold operations; other messages:
+	// while the next operation is issued, within the same instant)
+	ParkLog string
+	Hold    int
 }
 
 func (o lop) String() string {
 	switch o.Kind {
 	case "add":
-		return "add(" + o.Spec.String() + ")"
-	case "rm", "entry":
+		return "add(" + o.Spec.String() + ")" + parkStr(o)
+	case "rm":
+		return fmt.Sprintf("rm(%d)%s", o.K, parkStr(o))
+	case "entry":
 		return fmt.Sprintf("%s(%d)", o.Kind, o.K)
+	case "start":
+		if o.How == "run" {
+			return "go-run" + parkStr(o)
+		}
+		return "start" + parkStr(o)
+	case "stop":
+		return "stop" + parkStr(o)
+	case "restart":
+		if o.How == "run" {
+			return "restart(go-run)"
+		}
+		return "restart"
 	case "sleep":
+		if o.ParkLog != "" {
+			return fmt.Sprintf("sleep(%s,%v)%s", o.How, o.D, parkStr(o))
+		}
 		if o.Place != "" {
 			return fmt.Sprintf("sleep(%s,%v)+%s@arm", o.How, o.D, o.Place)
 		}
@@ -172,11 +194,20 @@ func (o lop) String() string {
 	return o.Kind
 }
 
-func genLockstep(rng *mon.RNG, jump bool, z *zone) []lop {
+func parkStr(o lop) string {
+	if o.ParkLog == "" {
+		return ""
+	}
+	if o.ParkLog == "stop" {
+		return fmt.Sprintf("{hold-on-stop:%d}", o.Hold)
+	}
+	return "{hold-on-" + o.ParkLog + "}"
+}
+
+func genLockstep(rng *mon.RNG, jump bool, z *zone) (ops []lop) {
 	genLong = z.set()
 	defer func() { genLong = false }()
 	n := rng.Range(10, 60)
-	var ops []lop
 	// prologue: a few entries and a Start, in either order
 	pre := rng.Range(0, 3)
 	for i := 0; i < pre; i++ {
@@ -188,7 +219,37 @@ func genLockstep(rng *mon.RNG, jump bool, z *zone) []lop {
 	if (jump || !z.set()) && rng.Chance(1, 3) {
 		ops = append(ops, genBetween(rng)...)
 	}
+	runBias := rng.PickInt(0, 1, 2) // Start() only / mixed / mostly go Run()
+	if rng.Chance(1, 4) {
+		ops = append(ops, genLifecycle(rng, z.set())...)
+	}
+	defer func() {
+		for i := range ops {
+			o := &ops[i]
+			switch {
+			case o.Kind == "start" || o.Kind == "restart":
+				if o.How == "" && rng.Intn(2) < runBias {
+					o.How = "run"
+				}
+				if o.Kind == "start" && o.ParkLog == "" && rng.Chance(1, 8) {
+					o.ParkLog = "start"
+				}
+			case o.Kind == "stop" && o.ParkLog == "" && rng.Chance(1, 4):
+				o.ParkLog, o.Hold = "stop", rng.Range(1, 3)
+			case o.Kind == "add" && rng.Chance(1, 10):
+				o.ParkLog = "added"
+			case o.Kind == "rm" && rng.Chance(1, 10):
+				o.ParkLog = "removed"
+			case o.Kind == "sleep" && o.Place == "" && (o.How == "exact" || jump) && rng.Chance(1, 8):
+				o.ParkLog = rng.PickStr("wake", "run")
+			}
+		}
+	}()
 	for len(ops) < n {
+		if rng.Chance(1, 60) {
+			ops = append(ops, genLifecycle(rng, z.set())...)
+			continue
+		}
 		if (jump || !z.set()) && rng.Chance(1, 25) {
 			ops = append(ops, genBetween(rng)...)
 			continue
@@ -359,14 +420,60 @@ func runLockstep(t *testing.T, idx int, mode string, rng *mon.RNG) {
 		}
 		w.newCron()
 		ls := &lockstep{w: w, m: newRef(), jump: jump}
-		for i, o := range ops {
+		held := 0 // operations still to run before the outgoing scheduler, held on "stop", is released
+		for i := 0; i < len(ops); i++ {
+			o := ops[i]
 			rec.Progress()
 			ls.last = o.Kind
 			if o.Kind == "sleep" {
 				ls.last = "sleep-" + o.How
 			}
+			if o.ParkLog != "" && o.ParkLog != "stop" && o.Place == "" && !w.logParked.Load() {
+				w.mu.Lock()
+				w.parkLog = o.ParkLog
+				w.mu.Unlock()
+			}
 			ls.do(o)
 			synctest.Wait()
+			w.mu.Lock()
+			w.parkLog = "" // not provoked: disarm
+			w.mu.Unlock()
+			switch {
+			case w.logParked.Load() && w.logParkedAtIs("stop"):
+				if held == 0 {
+					held = o.Hold + 1
+					rec.Count("lifecycle.outgoing_scheduler_held_on_stop", 1)
+				}
+				if held--; held == 0 {
+					w.releaseLog()
+					synctest.Wait()
+				}
+			case w.logParked.Load():
+				// the live scheduler is held on a message of this instant: the next
+				// operation (if it is not a clock advance) is issued meanwhile
+				at := w.logParkedAtGet()
+				rec.Count("lifecycle.held_on_"+at, 1)
+				if i+1 < len(ops) && ops[i+1].Kind != "sleep" && ops[i+1].ParkLog == "" {
+					i++
+					nx := ops[i]
+					ls.last = at + "+" + nx.Kind
+					rec.Count("lifecycle.held_on_"+at+".then_"+nx.Kind, 1)
+					done := make(chan struct{})
+					go func() {
+						defer close(done)
+						ls.do(nx)
+					}()
+					mon.Quiesce()
+					w.releaseLog()
+					<-done
+				} else {
+					w.releaseLog()
+				}
+				synctest.Wait()
+			}
+			if !w.logParked.Load() {
+				w.checkRuns(ls.liveRun, mode)
+			}
 			ls.compareStarts()
 			if i%5 == 4 && !w.viol.Load() {
 				ls.compareEntries(w.entries(0))
@@ -381,8 +488,10 @@ func runLockstep(t *testing.T, idx int, mode string, rng *mon.RNG) {
 			}
 		}
 		// epilogue: let every blocked job go, stop, everything must settle
+		w.releaseLog()
 		w.stop(0)
 		ls.m.stop()
+		ls.liveRun = 0
 		w.checkCtx(false, mode)
 		w.releaseForever(0)
 		synctest.Wait()
@@ -391,6 +500,7 @@ func runLockstep(t *testing.T, idx int, mode string, rng *mon.RNG) {
 			ls.compareStarts()
 			ls.compareEntries(w.entries(0))
 			w.checkCtx(true, mode)
+			w.checkRuns(0, mode)
 		}
 		if !w.viol.Load() {
 			// nothing may start after Stop returned, however far the clock goes
@@ -417,6 +527,7 @@ type lockstep struct {
 	// entry's next activation, with nothing since that re-sorts the scheduler's list
 	between []*rEnt
 	lastAdd *rEnt
+	liveRun int // 1 while the live scheduler was started through Run()
 }
 
 func (ls *lockstep) pick(k int) (*ent, cron.EntryID) {
@@ -468,20 +579,27 @@ func (ls *lockstep) do(o lop) {
 		r := w.entry(0, e, id)
 		ls.compareEntry(r)
 	case "start":
-		r := w.start(0)
-		if m.start(r.at) > 0 {
-			rec.Count("restart.recomputed", 1)
-		}
+		ls.startLife(o.How == "run")
 	case "stop":
+		if m.running && o.ParkLog == "stop" && !w.logParked.Load() {
+			w.mu.Lock()
+			w.parkLog = "stop"
+			w.mu.Unlock()
+		}
 		w.stop(0)
 		m.stop()
+		if ls.liveRun > 0 {
+			rec.Count("lifecycle.stop_of_scheduler_started_via_run", 1)
+		}
+		ls.liveRun = 0
 	case "restart":
 		w.stop(0)
 		m.stop()
-		r := w.start(0)
-		if m.start(r.at) > 0 {
-			rec.Count("restart.recomputed", 1)
+		if ls.liveRun > 0 {
+			rec.Count("lifecycle.restart_of_scheduler_started_via_run", 1)
 		}
+		ls.liveRun = 0
+		ls.startLife(o.How == "run")
 	case "release":
 		w.release(0)
 	case "sleep":
@@ -608,12 +726,28 @@ func (ls *lockstep) placeAfterWake(place string, started int) {
 	case "stop":
 		m.stop()
 		ls.between = nil
+		ls.liveRun = 0
 	case "rm-last":
 		m.remove(id)
 		ls.between = nil
 	case "add":
 		m.add(r.e, r.at)
 		ls.lastAdd = m.ents[len(m.ents)-1]
+	}
+}
+
+func (ls *lockstep) startLife(viaRun bool) {
+	w, m := ls.w, ls.m
+	was := m.running
+	r := w.startVia(0, viaRun)
+	if m.start(r.at) > 0 {
+		rec.Count("restart.recomputed", 1)
+	}
+	if !was && viaRun {
+		ls.liveRun = 1
+	}
+	if !was && w.logParked.Load() && w.logParkedAtIs("stop") {
+		rec.Count("lifecycle.restart_while_outgoing_scheduler_held_on_stop", 1)
 	}
 }
 
